@@ -231,8 +231,10 @@ class Schema:
 
     def add_schema(self, schema, root_path: DataPath):
         for rule in schema.rules:
-            rule.path = root_path / rule.path
-            self.rules.append(rule)
+            # add a re-rooted copy; the rules of the added schema are left as they are:
+            new_rule = copy.copy(rule)
+            new_rule.path = root_path / rule.path
+            self.rules.append(new_rule)
 
         self.rules = sorted(self.rules, key=lambda i: len(i.path))
 
